@@ -307,8 +307,24 @@ def r11_3(ctx):
     O = ownership(ctx)
     for name in ("move", "scale", "rotate"):
         fn = ctx.fn(f"shape.DefinedShape.{name}")
-        direct = [e for e in O.events.get(fn.qname, []) if not e["field"].startswith("[")
-                  and (e["via"] is None or e["via"][0] is None or not e["via"][0].startswith("jordancurve.JordanCurve."))]
+        def undelegated(q, depth=0):
+            """write events of q that do not go through a JordanCurve method, looking through private helpers of the
+            shape module (a shared `_transform_jordans(method, *args)` is delegation all the same)"""
+            bad_ = []
+            for e in O.events.get(q, []):
+                if e["field"].startswith("["):
+                    continue
+                via = e["via"][0] if e["via"] else None
+                if via is not None and via.startswith("jordancurve.JordanCurve."):
+                    continue
+                helper = ctx.model.funcs.get(via) if via else None
+                if helper is not None and helper.mod == "shape" and helper.name.startswith("_") \
+                        and not helper.name.endswith("__") and depth < 3:
+                    if not undelegated(via, depth + 1):
+                        continue
+                bad_.append(e)
+            return bad_
+        direct = undelegated(fn.qname)
         if direct:
             out.bad(fn.qname, "writes state itself instead of delegating to the validated curve method",
                     where=fn.where(direct[0]["node"]))
